@@ -132,6 +132,9 @@ def r1_queries_pure(ctx):
 # --------------------------------------------------------------------------------------------- R2 / R3
 def _guarded(f, node, pm) -> bool:
     for t, pol in astx.path_condition(f.node, node, pm, drop_stale=False):
+        # (`if not store_states: return ...` before the write is the same guard: the test negated, the write on its false edge)
+        while isinstance(t, ast.UnaryOp) and isinstance(t.op, ast.Not):
+            t, pol = t.operand, not pol
         if pol and astx.is_name(t, "store_states"):
             return True
     return False
